@@ -13,7 +13,9 @@ is the operator's switch.
 namespace Nsq.Props.C20GiveUp
 open Nsq.Model.Relay Nsq.Model.Relay.Http
 
-/-- tool-level statement for a consumer configured with `max_attempts = k` -/
+/-- tool-level statement for a consumer configured with `max_attempts = k` — **nsq_to_http** (`Http.consume`). The
+nsq_to_nsq half (`N2N.consume`, over whole histories) is `Nsq.Props.C20N2NTool.n2nSafeAt` / `n2n_safe_iff`; both together:
+`Nsq.Props.C20N2NTool.both_relays_safe_iff` (audit round 7, C22). -/
 def relaySafeAt (k : Nat) : Prop :=
   ∀ (c : Cfg), c.naddr ≠ 0 → ∀ (attempts counter : Nat) (m : Msg) (so : Bool) (pick : Nat) (resp : Nat → Option Nat),
     Out.fin m.id ∈ (consume c k attempts counter m so pick resp).2 →
@@ -43,7 +45,9 @@ theorem relay_safe_iff (k : Nat) : relaySafeAt k ↔ k = 0 := by
     | succ n => exact absurd h (relay_unsafe_with_giveup (n + 1) (Nat.succ_pos n))
   · rintro rfl; exact relay_safe_without_giveup
 
-/-- instantiated with the regenerated configuration of the shipped tools -/
+/-- instantiated with the regenerated configuration of the shipped tools (the second conjunct instantiates the
+*nsq_to_http* statement with nsq_to_nsq's regenerated `max_attempts`; the statement about nsq_to_nsq's own handler is
+`Nsq.Props.C20N2NTool.both_relays_safe_iff`) -/
 theorem shipped_relays_safe_iff :
     (relaySafeAt Nsq.Gen.ToolsRelay.n2hMaxAttempts ↔ Nsq.Gen.ToolsRelay.n2hMaxAttempts = 0)
     ∧ (relaySafeAt Nsq.Gen.ToolsRelay.n2nMaxAttempts ↔ Nsq.Gen.ToolsRelay.n2nMaxAttempts = 0) :=
